@@ -464,3 +464,79 @@ def generate_callsites(rep, sites, write=True):
         ]
         (GEN_DIR / "CallSites.lean").write_text("\n".join(lines) + "\n")
     return rows, skipped
+
+
+C03_EXPECTED = pathlib.Path(__file__).resolve().parent / "c03_expected.json"
+
+
+def generate_triples(rep, sites, classify, write=True):
+    """Generated/Triples.lean: the (sing, loc) pairs and loc-only kernels of the live call sites.
+
+    `classify(sing_name, loc_name)` -> 'exact' | 'approx' | 'outside' asks the Lean normaliser.
+    Pairs listed in c03_expected.json keep the class recorded there (so that a pair that *stops*
+    satisfying its obligation breaks the theorem instead of silently changing class)."""
+    expected = json.loads(C03_EXPECTED.read_text()) if C03_EXPECTED.exists() else {}
+    pairs = {}
+    loc_only = {}
+    from_distr = 0
+    closures = {}
+    for s in sites:
+        if s["status"] != "rsl":
+            continue
+        p = s["parts"]
+        label = f"{s['fam']}.{s['module']}.{s['cls']}[{s['order']}]"
+        sing, loc = p.get("sing"), p.get("loc")
+        if sing is None and loc is None:
+            continue
+        if sing and sing[0].endswith("sing_from_distr_coeffs") and loc and loc[0].endswith("loc_from_distr_coeffs"):
+            from_distr += 1
+            continue
+        if loc and loc[0].endswith("loc_from_delta") and sing is None:
+            from_distr += 1
+            continue
+        if sing is None:
+            if loc[1] and loc[0] in rep["kernels"]:
+                loc_only.setdefault(loc[0], label)
+            else:
+                closures.setdefault(("-", loc[0]), label)
+            continue
+        if loc is None:
+            closures.setdefault((sing[0], "-"), label)
+            continue
+        if sing[1] and loc[1] and sing[0] in rep["kernels"] and loc[0] in rep["kernels"]:
+            pairs.setdefault((sing[0], loc[0]), label)
+        else:
+            closures.setdefault((sing[0], loc[0]), label)
+    classes = {}
+    for (sn, ln), label in pairs.items():
+        key = f"{sn}|{ln}"
+        classes[key] = expected.get(key) or classify(sn, ln)
+    if write:
+        K = rep["kernels"]
+        def rows(cls):
+            return ",\n".join(f'  ("{label}", {K[sn]["ident"]}, {K[ln]["ident"]})' for (sn, ln), label in sorted(pairs.items()) if classes[f"{sn}|{ln}"] == cls)
+        lines = [
+            "/- GENERATED by harness/translate.py (pairs read from the live classes): do not edit. -/",
+            "import YadismModel.Generated.Kernels",
+            "namespace Yadism.Gen",
+            "open Yadism",
+            "",
+            "/-- `(first call site, sing, loc)`: obligation expected to hold exactly -/",
+            "def exactPairs : List (String × KExpr × KExpr) := [",
+            rows("exact"),
+            "]",
+            "",
+            "/-- obligation expected to hold within the digits of the published parametrisation -/",
+            "def approxPairs : List (String × KExpr × KExpr) := [",
+            rows("approx"),
+            "]",
+            "",
+            "/-- local parts without a singular part -/",
+            "def locOnly : List (String × KExpr) := [",
+            ",\n".join(f'  ("{label}", {K[ln]["ident"]})' for ln, label in sorted(loc_only.items())),
+            "]",
+            "",
+            "end Yadism.Gen",
+        ]
+        (GEN_DIR / "Triples.lean").write_text("\n".join(lines) + "\n")
+    return dict(pairs=pairs, classes=classes, loc_only=loc_only, from_distr_sites=from_distr, closures=closures)
